@@ -5,6 +5,7 @@
 From Coq Require Import ZArith Bool.
 From PV Require Import Base.Common Base.IR Base.Bits Model.Lower Proofs.LowerProofs.
 From PV Require Model.Cfg Proofs.CfgProofs Model.Syntax Model.LabelScope.
+From PV Require Model.Layout Model.MemLower Proofs.MemLowerProofs.
 Open Scope Z_scope.
 
 (* For every binary operator and every primitive type the resolver admits for
@@ -109,6 +110,84 @@ Theorem C01_accepted_compiles : forall body,
       end.
 Proof. exact CfgProofs.accepted_compiles. Qed.
 
+(* ---- memory: references to parts of arrays and structures ----------------------------------
+   Model/MemLower.v: a source-level object model (scalars, arrays, structures; paths of element
+   and member steps), a flat byte memory laid out by LLVM's StructLayout (Model/Layout.v, tied
+   to the code under C10), and the instruction sequence generator.rs emits for a reference
+   (`generate_storage_address`: batched getelementptr indices, loads at pointers, extractvalue
+   for parameter slices), followed statement by statement.  For every well-formed type, any
+   nesting depth, any in-range indices: *)
+
+(* the address the lowered path computes lies inside the object ... *)
+Theorem C01_subobject_in_bounds : forall p t v v',
+  Layout.wf_ty t = true -> MemLower.wt_value t v = true -> MemLower.get_path v p = Some v' ->
+  exists off t',
+    MemLower.gep_offset t p = Some (off, t') /\ 0 <= off /\
+    off + Layout.llvm_alloc_size t' <= Layout.llvm_alloc_size t /\
+    Layout.wf_ty t' = true /\ MemLower.wt_value t' v' = true.
+Proof. exact MemLowerProofs.gep_in_bounds. Qed.
+
+(* ... and holds exactly the source-level subobject, *)
+Theorem C01_load_finds_the_subobject : forall m a t v p v' off t',
+  Layout.wf_ty t = true -> MemLower.wt_value t v = true -> MemLowerProofs.agree m a t v ->
+  MemLower.get_path v p = Some v' -> MemLower.gep_offset t p = Some (off, t') ->
+  MemLower.load m (a + off) t' = Some v'.
+Proof. exact MemLowerProofs.load_after_encode. Qed.
+
+(* a store through it updates exactly that subobject: the memory then encodes [set_path v p w]
+   and no byte outside the subobject's range changes, *)
+Theorem C01_store_updates_exactly_the_subobject : forall m a t v p v0 off t' w,
+  Layout.wf_ty t = true -> MemLower.wt_value t v = true -> MemLowerProofs.agree m a t v ->
+  MemLower.get_path v p = Some v0 -> MemLower.gep_offset t p = Some (off, t') -> MemLower.wt_value t' w = true ->
+  exists v2,
+    MemLower.set_path v p w = Some v2 /\ MemLower.wt_value t v2 = true /\
+    MemLowerProofs.agree (MemLower.store m (a + off) t' w) a t v2 /\
+    (forall x, x < a + off \/ a + off + Layout.llvm_alloc_size t' <= x ->
+       MemLower.store m (a + off) t' w x = m x).
+Proof. exact MemLowerProofs.store_commutes. Qed.
+
+(* and two references neither of which is a prefix of the other never overlap. *)
+Theorem C01_distinct_paths_do_not_overlap : forall p q t v vp vq offp tp offq tq,
+  Layout.wf_ty t = true -> MemLower.wt_value t v = true ->
+  MemLower.get_path v p = Some vp -> MemLower.get_path v q = Some vq ->
+  MemLower.gep_offset t p = Some (offp, tp) -> MemLower.gep_offset t q = Some (offq, tq) ->
+  MemLower.disjoint_paths p q = true ->
+  offp + Layout.llvm_alloc_size tp <= offq \/ offq + Layout.llvm_alloc_size tq <= offp.
+Proof. exact MemLowerProofs.distinct_paths_distinct_ranges. Qed.
+
+(* The instructions of the generator compute that address: for the steps of ANY reference
+   (through pointers, views, slices, endless arrays, to any depth) the batched getelementptr /
+   load / extractvalue sequence evaluates to the location the steps mean one by one. *)
+Theorem C01_generated_address_is_the_meaning_of_the_steps : forall m l steps l',
+  steps <> [] -> MemLowerProofs.endless_ok false steps = true ->
+  MemLower.sem_steps m l steps = Some l' ->
+  exists a t, l' = MemLower.LocMem a t /\
+    MemLower.run m (MemLower.lower_ref (MemLower.base_kind_of l) steps) (MemLower.base_mval l) = Some (MemLower.MPtr a t).
+Proof. exact MemLowerProofs.lower_ref_sound. Qed.
+
+(* Elements of a slice: the address is ptr + i * size for EVERY i (the generated code has no
+   bounds check: documented behaviour); with 0 <= i < len it holds the i-th element. *)
+Theorem C01_slice_element : forall m ptr len E vs i q v' off t',
+  Layout.wf_ty (MemLower.erase E) = true -> MemLowerProofs.wt_list (MemLower.erase E) vs = true -> Z.of_nat (length vs) = len ->
+  MemLowerProofs.agree m ptr (Layout.TArr len (MemLower.erase E)) (MemLower.VArr vs) ->
+  0 <= i < len ->
+  MemLower.get_path (MemLower.VArr vs) (MemLower.SElem i :: q) = Some v' ->
+  MemLower.gep_offset (MemLower.erase E) q = Some (off, t') ->
+  exists T',
+    MemLower.run m (MemLower.lower_ref MemLower.BParam (MemLower.RDeslice0 :: MemLower.RElem i false :: map MemLower.step_rstep q)) (MemLower.MSlice ptr len E)
+    = Some (MemLower.MPtr (ptr + i * Layout.llvm_alloc_size (MemLower.erase E) + off) T') /\ MemLower.erase T' = t' /\
+    MemLower.load m (ptr + i * Layout.llvm_alloc_size (MemLower.erase E) + off) t' = Some v'.
+Proof. exact MemLowerProofs.slice_element. Qed.
+
+(* The generator before the repair of D56 kept treating the base as "the parameter itself" after
+   taking the data pointer out of a parameter slice, and skipped the load of a pointer element
+   (`x: []&i64; x[i]`): its address differs from the meaning of the steps. *)
+Theorem C01_pinned_slice_of_pointers_refuted :
+  exists m l steps l',
+    MemLowerProofs.endless_ok false steps = true /\ MemLower.sem_steps m l steps = Some l' /\
+    MemLower.loc_addr l' <> MemLower.run m (MemLower.lower_ref_pinned (MemLower.base_kind_of l) steps) (MemLower.base_mval l).
+Proof. exact MemLowerProofs.pinned_imm_flag_refuted. Qed.
+
 Print Assumptions C01_binop_lowering_correct.
 Print Assumptions C01_lower_simulates.
 Print Assumptions C01_lower_simulates_trace.
@@ -117,3 +196,10 @@ Print Assumptions C01_accepted_compiles.
 Print Assumptions C01_unop_lowering_correct.
 Print Assumptions C01_icmp_lowering_correct.
 Print Assumptions C01_cast_lowering_correct.
+Print Assumptions C01_subobject_in_bounds.
+Print Assumptions C01_load_finds_the_subobject.
+Print Assumptions C01_store_updates_exactly_the_subobject.
+Print Assumptions C01_distinct_paths_do_not_overlap.
+Print Assumptions C01_generated_address_is_the_meaning_of_the_steps.
+Print Assumptions C01_slice_element.
+Print Assumptions C01_pinned_slice_of_pointers_refuted.
